@@ -290,7 +290,7 @@ FILE_TRUST = ["the container-reader model (AvroModel/File.lean) is hand-written 
               "readN's chunked reading (1 MiB chunks) is modelled as such; memory consumption is outside the model (the harness measures it for unbacked declared lengths)"]
 PROPS["C07"] = {
     "lean_modules": ["AvroModel.Props.C07", "AvroModel.Props.C07b"],
-    "required_theorems": ["delivers", "callback_error", "callback_error_count", "sync", "crc", "inflate", "damaged_block", "snappy_short",
+    "required_theorems": ["snappy_guard_accepts_valid", "delivers", "callback_error", "callback_error_count", "sync", "crc", "inflate", "damaged_block", "snappy_short",
                           "snappy_garbled", "magic", "no_schema", "bad_schema", "unknown_codec", "no_codec_means_null", "no_panic",
                           "valid_mkHeader", "fuel_enough", "written_callback_error"],
     "harness": ["C07"],
